@@ -288,3 +288,43 @@ extern "C" void h_radix_sort() {
   for (unsigned i = 0; i < VF_N; i++) VF_ASSERT(a[i] == w[i]);
   VF_END();
 }
+
+// SortedRange::join / swapBuffer (the reduction step of the radix-sort path) on
+// its own: two adjacent sorted runs, each living in either of the two buffers
+// (inTmp), every length split.  After left.join(right) the buffer named by
+// left.inTmp must hold the sorted merge of both runs.
+extern "C" void h_sorted_range_join() {
+  typedef unsigned KeyT;
+  KeyT input[VF_N], tmp[VF_N], runs[VF_N];
+  unsigned n = len();
+  unsigned n1 = vf_nondet_u32();
+  vf_assume(n1 >= 1 && n1 < n);  // both runs non-empty (TBB never creates an empty range)
+  for (unsigned i = 0; i < VF_N; i++) {
+    runs[i] = vf_nondet_u32();
+    input[i] = vf_nondet_u32();  // stale contents of the buffer that does not hold the run
+    tmp[i] = vf_nondet_u32();
+  }
+  for (unsigned i = 1; i < n; i++)
+    if (i != n1) vf_assume(runs[i - 1] <= runs[i]);
+  details::SortedRange<KeyT, size_t> left(input, tmp, 0, n1), right(input, tmp, n1, n - n1);
+  left.inTmp = vf_bool();
+  right.inTmp = vf_bool();
+  for (unsigned i = 0; i < VF_N; i++)
+    if (i < n) {
+      if (i < n1) (left.inTmp ? tmp : input)[i] = runs[i];
+      else (right.inTmp ? tmp : input)[i] = runs[i];
+    }
+  // oracle: merge of the two runs
+  KeyT w[VF_N];
+  unsigned a = 0, b = n1, k = 0;
+  while (a < n1 || b < n) {
+    if (b >= n || (a < n1 && runs[a] <= runs[b])) w[k++] = runs[a++];
+    else w[k++] = runs[b++];
+  }
+  left.join(right);
+  VF_ASSERT(left.offset == 0 && left.length == n);
+  const KeyT* res = left.inTmp ? tmp : input;
+  for (unsigned i = 0; i < VF_N; i++)
+    if (i < n) VF_ASSERT(res[i] == w[i]);
+  VF_END();
+}
